@@ -33,7 +33,6 @@ import (
 	chart "helm.sh/helm/v4/pkg/chart/v2"
 	"helm.sh/helm/v4/pkg/chart/v2/loader"
 	chartutil "helm.sh/helm/v4/pkg/chart/v2/util"
-	"helm.sh/helm/v4/pkg/ignore"
 
 	"verif/harness/internal/hx"
 )
@@ -357,6 +356,8 @@ func c15ExecRt(c *c15Case, tmp string) (obs c15Obs) {
 		if err == nil {
 			obs.DirLoaded = c15Project(l)
 			orc.addChart(l)
+		} else if obs.IgnoreErr {
+			obs.DirErr = "ignore"
 		}
 	}
 	orc.close()
@@ -544,8 +545,8 @@ func c15Wf(s *c15Chart, top bool) bool {
 		if !c15CleanRel(f.Name) || strings.HasPrefix(f.Name, "templates/") || dup(f.Name) {
 			return false
 		}
-		if f.Name == ignore.HelmIgnore {
-			if _, err := ignore.Parse(bytes.NewReader(f.Data)); err != nil {
+		if f.Name == ".helmignore" {
+			if _, _, ok := c15ParseIgnore(f.Data, true); !ok {
 				return false // the directory loader reads it as rules; garbage there is not a valid chart
 			}
 		}
@@ -703,6 +704,52 @@ func (p *c15) Oracle(ci, oi any) []hx.Violation {
 			}
 			if sm := c15Sanitized(m); sm.Name != filepath.Base(sm.Name) || sm.Name == "" {
 				add("C15:invalid-name-packaged", fmt.Sprintf("Save packaged a chart named %q", m.Name))
+			}
+			// ... at every depth of the dependency tree: every chart written into the archive
+			var walk func(d *c15Chart, path string)
+			walk = func(d *c15Chart, path string) {
+				for _, sub := range d.Deps {
+					if sub.Meta != nil && sub.Meta.Name != filepath.Base(sub.Meta.Name) {
+						add("C15:invalid-dependency-name-packaged", fmt.Sprintf("Save packaged %s with a dependency named %q", path, sub.Meta.Name))
+					}
+					if sub.Meta != nil {
+						walk(sub, path+"/"+sub.Meta.Name)
+					}
+				}
+			}
+			walk(c.Chart, m.Name)
+			// ... and every entry of the archive stays below <name>/
+			// (root names ".", ".." and "/" equal their own base name and are accepted by Helm; what
+			// they lead to is recorded in notes/C15.md as an observation)
+			root := c15Sanitized(m).Name
+			for _, e := range obs.Saved {
+				if root == "." || root == ".." || root == "/" {
+					break
+				}
+				if !strings.HasPrefix(e.Name, root+"/") {
+					add("C15:entry-outside-chart-directory", fmt.Sprintf("Save wrote the entry %q outside %s/", e.Name, c15Sanitized(m).Name))
+					break
+				}
+			}
+		}
+		if obs.Loaded != nil && obs.DirLoaded != nil && len(c.Chart.Deps) == 0 {
+			ign := map[string]bool{}
+			for _, n := range obs.Ignored {
+				ign[n] = true
+			}
+			byName := map[string][]byte{}
+			for _, f := range append(append([]c15File{}, obs.DirLoaded.Templates...), obs.DirLoaded.Files...) {
+				byName[f.Name] = f.Data
+			}
+			dupl := map[string]int{}
+			for _, f := range append(append([]c15File{}, obs.Loaded.Templates...), obs.Loaded.Files...) {
+				dupl[f.Name]++
+			}
+			for _, f := range append(append([]c15File{}, obs.Loaded.Templates...), obs.Loaded.Files...) {
+				if d, ok := byName[f.Name]; ok && dupl[f.Name] == 1 && !ign[f.Name] && !bytes.Equal(d, f.Data) && !c15Reserved[f.Name] && c15CleanRel(f.Name) {
+					add("C15:directory-and-archive-load-differ", fmt.Sprintf("%s has %d bytes when loaded from the archive and %d bytes when loaded from the directory", f.Name, len(f.Data), len(d)))
+					break
+				}
 			}
 		}
 		if !obs.Wf {
